@@ -165,7 +165,7 @@ class Unit:
 
     # ---- low level -------------------------------------------------------
     def rule(self, r, what):
-        self.rules.setdefault(r, []).append(what)
+        self.rules.setdefault(r, []).append(re.sub(r"\s+", " ", what))
 
     def emit(self, text, kind="contract", rule=None, fn=None):
         if not text.endswith("\n"):
@@ -623,7 +623,14 @@ class Unit:
     def _e9(self, sf, it, lo, hi, e, path):
         anchor, ordinal, params, args, ret_type, stub_contract = e[:6]
         opts = e[6] if len(e) > 6 else {}
-        a, b = self.find_anchor(sf, lo, hi, anchor, ordinal, path)
+        if isinstance(anchor, (tuple, list)):
+            # anchor given as a byte span computed from the syn index (calls / closures / matches)
+            a, b = anchor
+            if not (lo <= a <= b <= hi):
+                raise Undecided("%s: E9 span outside the function body" % path)
+            anchor = sf.s(a, b)
+        else:
+            a, b = self.find_anchor(sf, lo, hi, anchor, ordinal, path)
         self.e9_n += 1
         name = opts.get("name") or ("vx_e9_%s_%d" % (re.sub(r"\W+", "_", it["name"]), self.e9_n))
         is_async = opts.get("is_async", False)
